@@ -27,6 +27,10 @@ type RNode struct {
 	Index     int
 	Parent    *RNode
 	HasSpan   bool // compound with at least one child that defines its range
+	GapFilled bool // decoded with gap filling over [GapLo,GapHi) of buffer GapBuf
+	GapLo     int64
+	GapHi     int64
+	GapBuf    int
 }
 
 func (n *RNode) IsCompound() bool { return n.Kind == "struct" || n.Kind == "array" }
@@ -58,8 +62,16 @@ type refInterp struct {
 
 // Ref predicts the tree. gapTol: see refInterp.
 func Ref(p Prog, input []bool, force bool, gapTol int64) (res *RefResult) {
+	return RefRoot(p, input, force, gapTol, false)
+}
+
+// RefRoot is Ref with the choice of a root array.
+func RefRoot(p Prog, input []bool, force bool, gapTol int64, rootArray bool) (res *RefResult) {
 	ri := &refInterp{bufs: [][]bool{input}, force: force, gapTol: gapTol}
 	root := &RNode{Name: "", Kind: "struct", Buf: 0, IsRoot: true, Inner: 0, InnerLen: int64(len(input)), FmtRoot: true}
+	if rootArray {
+		root.Kind = "array"
+	}
 	c := &rctx{buf: 0, origin: 0, pos: 0, hi: int64(len(input)), node: root}
 	failed := ri.guard(func() { ri.run(c, p) })
 	ri.fillGaps(root, 0, 0, int64(len(input)))
@@ -357,6 +369,7 @@ func (ri *refInterp) maxStop(n *RNode, base int64) int64 {
 
 // fillGaps appends gap fields to n covering [lo,hi) of buffer buf minus the leaves.
 func (ri *refInterp) fillGaps(n *RNode, buf int, lo, hi int64) {
+	n.GapFilled, n.GapLo, n.GapHi, n.GapBuf = true, lo, hi, buf
 	var ls [][2]int64
 	ri.leaves(n, true, &ls)
 	rel := make([][2]int64, len(ls))
